@@ -263,6 +263,10 @@ func newRScenario(cfg rcfg) *rscenario {
 	if cfg.mode != "plain" && curWatch {
 		cfg.watch = true
 	}
+	backoff := 10 * time.Millisecond
+	if cfg.mode != "plain" && curLongBackoff {
+		backoff = 20 * time.Second // only Close can end the back-off after a failed join
+	}
 	s := &rscenario{cfg: cfg, rec: &recorder{}, nextC: 1, done: map[int]chan struct{}{}, cancel: map[int]context.CancelFunc{}}
 	var set []byte
 	for i := 0; i < cfg.nmsgs; i++ {
@@ -319,9 +323,13 @@ func newRScenario(cfg rcfg) *rscenario {
 		if cfg.lagEvery > 0 {
 			lagEvery = cfg.lagEvery
 		}
+		rbMin, rbMax := time.Millisecond, 3*time.Millisecond
+		if curLongBackoff && cfg.broker != "ok" {
+			rbMin, rbMax = 20*time.Second, 20*time.Second // only the cancellation by Close can end the fetcher's back-off sleep
+		}
 		s.r = kafka.NewReader(kafka.ReaderConfig{Brokers: []string{"fake:9092"}, Topic: "t", Partition: 0, Dialer: dialer,
 			MinBytes: 1, MaxBytes: 1 << 20, MaxWait: 40 * time.Millisecond, ReadBatchTimeout: 300 * time.Millisecond,
-			ReadBackoffMin: time.Millisecond, ReadBackoffMax: 3 * time.Millisecond, MaxAttempts: 2, ReadLagInterval: lagEvery})
+			ReadBackoffMin: rbMin, ReadBackoffMax: rbMax, MaxAttempts: 2, ReadLagInterval: lagEvery})
 	case "group":
 		if cfg.coordReal {
 			s.gb = &gbroker{s: s}
@@ -336,7 +344,7 @@ func newRScenario(cfg rcfg) *rscenario {
 			MinBytes: 1, MaxBytes: 1 << 20, MaxWait: 40 * time.Millisecond, ReadBatchTimeout: 300 * time.Millisecond,
 			ReadBackoffMin: time.Millisecond, ReadBackoffMax: 3 * time.Millisecond, MaxAttempts: 2, ReadLagInterval: -1,
 			HeartbeatInterval: 15 * time.Millisecond, SessionTimeout: 300 * time.Millisecond, RebalanceTimeout: 300 * time.Millisecond,
-			JoinGroupBackoff: 10 * time.Millisecond, CommitInterval: ci, StartOffset: kafka.FirstOffset,
+			JoinGroupBackoff: backoff, CommitInterval: ci, StartOffset: kafka.FirstOffset,
 			WatchPartitionChanges: cfg.watch, PartitionWatchInterval: 7 * time.Millisecond})
 		kafka.VerifSetGroupHandler(nil)
 	case "cg":
@@ -347,7 +355,7 @@ func newRScenario(cfg rcfg) *rscenario {
 		}
 		cg, err := kafka.NewConsumerGroup(kafka.ConsumerGroupConfig{ID: "g", Brokers: []string{"fake:9092"}, Topics: []string{"t"}, Dialer: dialer,
 			HeartbeatInterval: 15 * time.Millisecond, SessionTimeout: 300 * time.Millisecond, RebalanceTimeout: 300 * time.Millisecond,
-			JoinGroupBackoff: 10 * time.Millisecond, Timeout: 150 * time.Millisecond,
+			JoinGroupBackoff: backoff, Timeout: 150 * time.Millisecond,
 			WatchPartitionChanges: cfg.watch, PartitionWatchInterval: 7 * time.Millisecond})
 		kafka.VerifSetGroupHandler(nil)
 		if err != nil {
@@ -444,6 +452,9 @@ func (s *rscenario) wait(c int, d time.Duration) bool {
 	case <-s.done[c]:
 		return true
 	case <-time.After(d):
+		if d >= watchdog() {
+			noteStuck() // waited the full watchdog bound: the call is blocked; later scenarios use the short bounds
+		}
 		return false
 	}
 }
@@ -772,6 +783,10 @@ func pickStepReal(r *rand.Rand) string {
 // scenarios with an even number run their group paths with the partition watcher (17 kinds: each kind gets both)
 var curWatch bool
 
+// scenarios with an odd number run their group paths with JoinGroupBackoff 20 s, and a plain reader whose broker is
+// silent or unreachable with ReadBackoffMin = ReadBackoffMax = 20 s
+var curLongBackoff bool
+
 func waitOr(ch chan struct{}) chan struct{} {
 	out := make(chan struct{})
 	go func() {
@@ -799,6 +814,7 @@ func readerPart(seed int64) {
 			if only("rclose", n) || only("ftrace", n) {
 				kafka.VerifStart()
 				curWatch = n%2 == 0
+				curLongBackoff = n%2 == 1
 				op, impl := readerScenario(kind, scRand(seed, 2, n))
 				evs := kafka.VerifStop()
 				emitSc(n, op, impl)
